@@ -1638,7 +1638,7 @@ theorem xFile_frame {κ : Type} [DecidableEq κ] {zip : Bool} {files fs' : List 
   cases a with
   | write b =>
     simp only at h
-    cases ht : xTime zip (AL.get? files n) t with
+    cases ht : xTime (AL.get? files n) t with
     | none => simp [ht] at h
     | some tt => simp [ht] at h; subst h; simp [hq]
   | touch =>
